@@ -517,6 +517,8 @@ impl PtraceDumper {
         }
 
         mapping
+            // The search may have given up on a mapping that cannot be a stack
+            .filter(|mapping| Self::may_be_stack(Some(mapping)))
             .map(|mapping| {
                 let valid_stack_pointer = if mapping.contains_address(stack_pointer) {
                     stack_pointer
